@@ -17,7 +17,7 @@ for pid in props:
           "level_claimed":{"category":p.get('category','model_checking'),"text":p['text'],"design_ref":f"DESIGN.md section 4 {pid} and section 9"},"level_note":p['note'],"technique":p['technique']})
 claimed=[c['property_id'] for c in checks]
 m={"version":1,"setup_cmd":"./tools/setup.sh",
- "hooks":{"guard":"oxidize_pdf_verif","enable":"RUSTFLAGS='--cfg oxidize_pdf_verif' for vcheck; plus '--cfg oxidize_pdf_verif_sched' (std sync/thread -> shuttle in batch/ and memory/cache.rs) for vsched; both set by /verif/check","baseline_off_cmd":"/verif/tools/baseline.sh","source_commits":["5bc611f8","40edd27f","29c9ceb4"],"add_only":True},
+ "hooks":{"guard":"oxidize_pdf_verif","enable":"RUSTFLAGS='--cfg oxidize_pdf_verif' for vcheck; plus '--cfg oxidize_pdf_verif_sched' (std sync/thread -> shuttle in batch/ and memory/cache.rs) for vsched; both set by /verif/check","baseline_off_cmd":"/verif/tools/baseline.sh","source_commits":["5bc611f8","40edd27f","29c9ceb4","a29704bb"],"add_only":True},
  "engines":[
   {"name":"vx","path":"harness/vx","serves_properties":[c for c in claimed if c not in('C22','C29')],"kind_free_text":"stateless choice-tree explorer over the real library: FULL enumeration or deviation-bounded DEV(k); deterministic replay; parallel DFS; evidence + known-findings matcher"},
   {"name":"refpdf","path":"harness/refpdf","serves_properties":[c for c in claimed if c not in('C22','C29','C14')],"kind_free_text":"reference layer (oracle side): independent strict PDF parser/reader/validator/builder, filters, crypto, CMaps, fonts, PNG, encodings; validated at setup against spec vectors, third-party codecs and the repository's qpdf/pypdf fixtures"},
